@@ -168,6 +168,13 @@ def run(ctx):
             c.lineno,
         )
 
+    # ---- C34.6 formatting / parsing is not served from a ==-keyed memo --------------------------------------
+    r6 = ctx.rule("C34.6", "format_tag_value / parse_tag_value (and the helpers they call) are not memoised by a cache keyed with ==", floor=2)
+    from ..flow import memoised_callee_obligations
+
+    for construct, ok, msg, rel_, line in memoised_callee_obligations(repo, (m.rel,), lambda leaf: leaf in ("format_tag_value", "parse_tag_value", "parse_tag_key_value")):
+        r6.check(ok, construct, msg + (" -- e.g. format_tag_value(True) then format_tag_value(1.0) gives 'true', which parses back to a bool" if msg else ""), rel_, line)
+
 
 def _gate_pattern(m, fact: str, pp: str):
     """`NAME.fullmatch(pp)` / `re.fullmatch(PAT, pp)` (or match/search) with a constant pattern -> (compiled, method)."""
